@@ -53,6 +53,7 @@ class Controller:
         self.bump_after: dict[int, str] = {}   # exchange number -> zone whose schedule changes right after it
         self.seen: dict[str, int] = {}
         self.log: list = []
+        self.wbuf: dict[str, dict[int, str]] = {}
 
     def put(self, zone: str, n_sp: int | None = None) -> None:
         full = make_schedule(self.rnd, zone, n_sp or self.rnd.choice((2, 4, 6)))
@@ -91,7 +92,20 @@ class Controller:
                 p = f"{idx}200008{len(frag) // 2:02X}{num:02X}{len(frags):02X}{frag}"
                 reply = f"RP --- {CTL} {src} --:------ 0404 {len(p) // 2:03d} {p}"
         else:
-            return []
+            # W|0404: a fragment of a new schedule; the schedule is taken (and the change counter stepped) when the last
+            # fragment of the set is in; every fragment is acknowledged with an I|0404 carrying its index and number
+            idx, num, total, frag = pay[:2], int(pay[10:12], 16), int(pay[12:14], 16), pay[14:]
+            buf = self.wbuf.setdefault(idx, {})
+            if num == 1:
+                buf.clear()
+            buf[num] = frag
+            if num == total and all(i in buf for i in range(1, total + 1)):
+                self.frags[idx] = [buf[i] for i in range(1, total + 1)]
+                self.counter += 1
+                self.history[idx].append((self.loop.time(), self.counter, self.f2s(self.frags[idx])["schedule"]))
+                buf.clear()
+            p = f"{idx}200008{len(frag) // 2:02X}{num:02X}{total:02X}"
+            reply = f" I --- {CTL} {src} --:------ 0404 {len(p) // 2:03d} {p}"
         self.log.append((self.loop.time(), k, "reply", frame[37:60], self.counter))
         del self.seen[key]                     # a later identical request is a new exchange
         z = self.bump_after.pop(k, None)
@@ -130,6 +144,17 @@ class XferLog:
             if code not in ("0404", "0006"):
                 return await o_send(cmd, **kw)
             idx = cmd.payload[:2] if code == "0404" else "--"
+            if code == "0404" and str(cmd.verb) == " W":
+                try:
+                    pkt = await o_send(cmd, **kw)
+                except asyncio.CancelledError:
+                    log.rows.append(("wexch", code, idx, "cancel", None))
+                    raise
+                except Exception as e:  # noqa: BLE001
+                    log.rows.append(("wexch", code, idx, "fail:" + type(e).__name__, None))
+                    raise
+                log.rows.append(("wexch", code, idx, "ack", (int(cmd.payload[10:12], 16), int(cmd.payload[12:14], 16))))
+                return pkt
             try:
                 pkt = await o_send(cmd, **kw)
             except asyncio.CancelledError:
@@ -184,6 +209,17 @@ async def episode(loop, script, rnd) -> dict:
         await asyncio.sleep(call["at"])
         t0 = loop.time()
         c0 = ctl.counter
+        if call.get("op") == "set":
+            sch = zone[call["zone"]]._schedule
+            new = make_schedule(random.Random(call["new_seed"]), call["zone"], call["new_size"])["schedule"]
+            before = (sch.schedule, sch.version)
+            try:
+                r = await asyncio.wait_for(zone[call["zone"]].set_schedule(new), timeout=call["timeout"])
+                res = ("ok", r)
+            except Exception as e:  # noqa: BLE001
+                res = ("err", type(e).__name__)
+            return {**call, "t0": t0, "t1": loop.time(), "c0": c0, "res": res, "label": zone[call["zone"]].schedule_version,
+                    "new": new, "before": before, "after": (sch.schedule, sch.version)}
         try:
             if call["timeout"] == 15:
                 r = await zone[call["zone"]].get_schedule(force_io=call["force_io"])      # the public entry point (15 s)
@@ -244,6 +280,18 @@ def gen_script(rnd: random.Random) -> dict:
     for _ in range(rnd.randrange(0, 3)):
         z = rnd.choice(ZONES)
         overheard.append((rnd.choice((0.0, 0.05, 0.2, 1.0)), f"RP --- {CTL} 18:999999 --:------ 0404 012 {z}20000805" + rnd.choice(("0103", "0203", "0101")) + "6899AB00CD"))
+    if rnd.random() < 0.3:
+        # a write (after a fetch of the same zone, so that the zone holds a labelled schedule), faults in the middle of it
+        z = rnd.choice(ZONES)
+        calls = [{"zone": z, "at": 0.0, "force_io": True, "timeout": 15},
+                 {"zone": z, "op": "set", "at": 4.0, "force_io": True, "timeout": rnd.choice((60.0, 60.0, 0.2, 1.0, 2.6, 6.0)),
+                  "new_seed": rnd.randrange(10**6), "new_size": rnd.choice((2, 4, 6))}]
+        nfr = {2: 3, 4: 5, 6: 8}.get(sizes[z], 5)
+        lose = {}
+        if rnd.random() < 0.7:
+            lose[nfr + 1 + rnd.randrange(1, 9)] = rnd.choice((1, 4, 9))      # an exchange of the write (fragments, then the 0006 read)
+        bump = {}
+        return {"sizes": sizes, "calls": calls, "lose": lose, "bump_after": bump, "overheard": overheard}
     if rnd.random() < 0.35:
         # directed: one unforced fetch; the zone's own schedule changes right after one of the last exchanges
         z = rnd.choice(ZONES)
@@ -254,9 +302,33 @@ def gen_script(rnd: random.Random) -> dict:
     return {"sizes": sizes, "calls": calls, "lose": lose, "bump_after": bump, "overheard": overheard}
 
 
+def score_set(chk: Check, c, o, rep) -> None:
+    """a write: on success the controller holds the new schedule and so does the zone; on failure the zone believes what it
+    believed before (the follow-up forced fetch, scored below, must give the controller's present schedule either way)"""
+    kind, val = c["res"]
+    chk.count("set.result." + (kind if kind == "ok" else val))
+    hist = o["history"][c["zone"]]
+    if kind == "ok":
+        if val != c["new"] or c["after"][0] != c["new"]:
+            chk.violation("c18.set.ok_but_other_schedule", f"zone {c['zone']}: set_schedule succeeded but returned / holds another schedule", rep)
+        if not any(s_ == c["new"] and c["t0"] <= t <= c["t1"] for (t, _cnt, s_) in hist):
+            chk.violation("c18.set.ok_but_not_written", f"zone {c['zone']}: set_schedule succeeded but the controller never took the new schedule", rep)
+    else:
+        if c["after"] != c["before"]:
+            chk.violation("c18.set.failed_write_changed_cache", f"zone {c['zone']}: set_schedule failed ({val}) yet the zone's schedule/version changed from "
+                          f"version {c['before'][1]} to {c['after'][1]} (schedule {'changed' if c['after'][0] != c['before'][0] else 'same'}): "
+                          "the zone now believes a schedule the controller did not accept", rep)
+    if c["t1"] - c["t0"] > c["timeout"] + 185.0:
+        chk.violation("c18.overran", f"zone {c['zone']}: the write took {c['t1'] - c['t0']:.1f} s with timeout {c['timeout']}", rep)
+
+
 def score(chk: Check, script, o, rep) -> None:
     if o["hung"]:
         chk.violation("c18.hang", f"{o['hung']} transfer(s) had not ended after 600 s", rep)
+    for c in o["calls"]:
+        if c.get("op") == "set":
+            score_set(chk, c, o, rep)
+    o = {**o, "calls": [c for c in o["calls"] if c.get("op") != "set"], "all_calls": o["calls"]}
     for c in o["calls"]:
         kind, val = c["res"]
         chk.count("result." + (kind if kind == "ok" else val))
@@ -315,6 +387,10 @@ def model_lines(o) -> list[tuple[str, str]]:
             r = rows[j]
             if r[0] == "exch" and (r[2] == z or (r[1] == "0006" and not exch)) and not released:
                 exch.append(r)
+            if r[0] == "wexch" and r[2] == z and not released:
+                exch.append(r)
+            if r[0] == "exch" and r[1] == "0006" and any(x[0] == "wexch" for x in exch) and r not in exch and not released:
+                exch.append(r)      # the change counter read at the end of a write
             if r[0] == "release" and r[1] == z:
                 released = True
                 break
@@ -331,7 +407,8 @@ def run(chk: Check) -> None:
     n_ep = 3000 if thorough else 250
     chk.rule = (
         "seeded fault scripts on a real 3-zone gateway against a scripted controller through the real QoS path: 1-3 concurrent "
-        "get_schedule calls (force_io on/off, caller timeouts 0.05 s - 40 s), replies to chosen exchanges lost 1-9 times, the schedule of "
+        "get_schedule calls (force_io on/off, caller timeouts 0.05 s - 40 s) and set_schedule after a fetch (caller timeouts 0.2 - 60 s), replies / "
+        "acknowledgements to chosen exchanges lost 1-9 times, the schedule of "
         "this or another zone changed right after chosen exchanges, overheard 0404 fragments; then a follow-up fetch on another zone; "
         "non-trivial = distinct script"
     )
@@ -353,6 +430,27 @@ def run(chk: Check) -> None:
                "lock_after": o["lock_after"], "rows": [list(map(str, r)) for r in o["rows"]][:80]}
         score(chk, script, o, rep)
         # correspondence, fetch by fetch (only fetches that were not interleaved with another zone's: the model is sequential)
+        set_calls = [c for c in o["calls"] if c.get("op") == "set"]
+        if len(set_calls) == 1:
+            c = set_calls[0]
+            for z, holder, how, exch, released in model_lines(o):
+                if z != c["zone"] or not any(x[0] == "wexch" for x in exch) and how == "ok":
+                    continue
+                if how not in ("ok",) and any(x[0] == "wexch" for x in exch):
+                    continue
+                ws = ["a" if x[3] == "ack" else "c" if x[3] == "cancel" else "f" for x in exch if x[0] == "wexch"]
+                vers = [x for x in exch if x[0] == "exch" and x[1] == "0006"]
+                ver = "-"
+                if vers:
+                    x = vers[-1]
+                    ver = f"r:{x[4][0]}:0:0" if x[3] == "reply" else "c" if x[3] == "cancel" else "f"
+                tag_before = "-" if c["before"][0] is None else "7"
+                kind, val = c["res"]
+                got_kind = f"sched:{c['after'][1]}" if kind == "ok" else "error" if val == "ProtocolSendFailed" else "cancelled"
+                tag_after = "-" if c["after"][0] is None else ("8" if c["after"][0] == c["new"] else "7" if c["after"][0] == c["before"][0] else "?")
+                reqs.append(f"xfer.set\t{z}\t{'-' if holder is None else holder}\t{tag_before}\t{c['before'][1] or 0}\t8\t{';'.join(ws)}\t{ver}")
+                impl.append(f"{'released' if released else 'kept'}\t{got_kind}\t{tag_after}:{c['after'][1] or 0}")
+                meta.append(rep)
         if len(script["calls"]) == 1:
             for z, holder, how, exch, released in model_lines(o):
                 if how != "ok":
@@ -372,6 +470,10 @@ def run(chk: Check) -> None:
     outs = Model().run(reqs)
     for r, a, b, m in zip(reqs, impl, outs, meta):
         p = b.split("\t")
+        if r.startswith("xfer.set"):
+            if p[0] != "ok" or "\t".join(p[1:]) != a:
+                chk.divergence("xfer.set", {"req": r, **{k: m[k] for k in ("script",)}}, a, b[:200])
+            continue
         if p[0] != "ok" or p[1] != a:
             chk.divergence("xfer.run", {"req": r, **{k: m[k] for k in ("script",)}}, a, b[:200])
     chk.extra["model_ops_compared"] = len(reqs)
